@@ -72,7 +72,9 @@
    NOT PROVED (search on the implementation only): that arcovar_marple / scipy lstsq inside arma_estimate are equivariant (they are
    the oracles [lsm], [lsq] of the model: hypothesis of the theorems, proved for the executable solver); for pmusic / pev: that numpy's svd meets
    [svd_spec], and the degenerate case S_(NSIG-1) = S_NSIG; real-data correlogram (twosided_2_onesided: bins 0 and NFFT/2 are not doubled -- not a
-   clause of the statement), pdaniell (decimating smoother: no rotation by m bins on its output grid); arma2psd with norm=True.  scipy.linalg.lstsq is represented by the
+   clause of the statement), pdaniell (decimating smoother: no rotation by m bins on its output grid -- daniell_shift_presmoothing /
+   daniell_mirror_presmoothing state what is true: the smoother is applied to the rolled / mirrored periodogram; Example daniell_not_a_rotation
+   shows the output is not a rotation); arma2psd with norm=True.  scipy.linalg.lstsq is represented by the
    executable solver ls_solve (any solver of the normal equations agrees with it on full-rank data: C09). *)
 From Coq Require Import String.
 Require Import Spectrum.Model.ArmaEst Spectrum.Model.ArmaCall.   (* before Yule / Arma2psd: their aryule, arma2psd stay the unqualified ones *)
@@ -89,6 +91,7 @@ Require Import Spectrum.Theory.Ops Spectrum.Theory.Sum Spectrum.Theory.Vec Spect
                Spectrum.Proofs.ArmaEstNondeg Spectrum.Proofs.ShiftArmaEst_C04 Spectrum.Proofs.ShiftLsExact_C04 Spectrum.Instances.QcCOrd
                Spectrum.Model.Eigen Spectrum.Proofs.EigenFB Spectrum.Proofs.EigenTheory Spectrum.Proofs.ShiftEigen_C04
                Spectrum.Proofs.EigenUnique_C04 Spectrum.Proofs.ShiftEigenAny_C04 Spectrum.Proofs.MtmExample
+               Spectrum.Model.Daniell Spectrum.Proofs.ShiftDaniell_C04
                Spectrum.Instances.QcC Spectrum.Instances.QcCTw.
 From Coq Require Import QArith Qcanon.
 
@@ -678,6 +681,26 @@ Theorem pmusic_pev_mirror_any_svd meth eps scale nsig thr crit amin (x : list F)
 Proof. exact (pclass_mirror_any_svd_thm n tw n_pos meth eps scale nsig thr crit amin x rows P S Vh S' Vh'). Qed.
 End C04EigenSvd.
 
+
+(* ---------------- DaniellPeriodogram: only the array handed to the smoother is rolled / mirrored ---------------- *)
+Section C04Daniell.
+Context {F : Type} {OF : Ops F} {L : Laws OF}.
+Context (n : nat) (tw : Z -> F) {T : Twiddle n tw} (n_pos : (0 < n)%nat).
+Local Open Scope F_scope.
+
+Theorem daniell_shift_presmoothing twopi (x w : list F) P NFFT dt sbf fs (m : Z) :
+  resolve NFFT (length x) = n -> py_eq_true dt = false ->
+  daniell tw twopi (vmod (shift_phase tw m) 0 x) w P NFFT false dt sbf fs
+  = daniell_smooth (rot m (speriodogram tw twopi x w NFFT false dt sbf fs)) P.
+Proof. exact (daniell_shift_thm n tw n_pos twopi x w P NFFT dt sbf fs m). Qed.
+
+Theorem daniell_mirror_presmoothing twopi (x w : list F) P NFFT dt sbf fs :
+  resolve NFFT (length x) = n -> (forall j, isreal (nthF w j)) -> (py_eq_true dt = true -> ofnat (length x) <> 0) ->
+  daniell tw twopi (vconj x) w P NFFT false dt sbf fs
+  = daniell_smooth (mirror (speriodogram tw twopi x w NFFT false dt sbf fs)) P.
+Proof. exact (daniell_mirror_thm n tw n_pos twopi x w P NFFT dt sbf fs). Qed.
+End C04Daniell.
+
 (* non-vacuity: an exact character exists (n = 4), modulated runs on concrete complex data return a model *)
 Example twiddle_exists : @Twiddle _ qcc_ops 4 tw4. Proof. exact tw4_twiddle. Qed.
 Example levinson_modulation_example :
@@ -832,6 +855,25 @@ Proof.
              (@eigen_svd_conj _ qcc_ops qcc_laws qcc_ord c04e_xm 2%nat 2%nat c04e_S c04e_Vhm c04e_svd_spec_modulated) (c04e_gap_m MEv)).
 Qed.
 
+
+(* DaniellPeriodogram is NOT shift covariant (and no rotation is defined on its decimated output): on the 4-point grid with P = 1 the model
+   returns 2 values; for the record modulated by one bin they are not a rotation (by 0 or 1) of the values for the record.  The theorem above
+   applies (the smoother sees the rolled periodogram). *)
+Local Open Scope Z_scope.
+Definition c04d_x : list QcC := [cz (1,0) (2,0); cz (-3,0) (1,-1); cz (0,0) (-1,0); cz (5,-2) (1,0)].
+Definition c04d_w : list QcC := [cz (1,-1) (0,0); cz (1,0) (0,0); cz (3,-2) (0,0); cz (1,-2) (0,0)].
+Local Close Scope Z_scope.
+Example daniell_not_a_rotation :
+  @daniell _ qcc_ops tw4 c04_twopi (@vmod _ qcc_ops (shift_phase tw4 1) 0 c04d_x) c04d_w 1 (Some 4%nat) false PyNone PyTrue c04_fs
+  = @daniell_smooth _ qcc_ops (@rot _ qcc_ops 1 (@speriodogram _ qcc_ops tw4 c04_twopi c04d_x c04d_w (Some 4%nat) false PyNone PyTrue c04_fs)) 1
+  /\ (let d0 := @daniell _ qcc_ops tw4 c04_twopi c04d_x c04d_w 1 (Some 4%nat) false PyNone PyTrue c04_fs in
+      let d1 := @daniell _ qcc_ops tw4 c04_twopi (@vmod _ qcc_ops (shift_phase tw4 1) 0 c04d_x) c04d_w 1 (Some 4%nat) false PyNone PyTrue c04_fs in
+      (length d0 =? 2)%nat && (length d1 =? 2)%nat && negb (c04_leqb d1 d0) && negb (c04_leqb d1 (@rot _ qcc_ops 1 d0))) = true.
+Proof.
+  split; [|vm_compute; reflexivity].
+  apply (@daniell_shift_presmoothing _ qcc_ops qcc_laws 4 tw4 tw4_twiddle ltac:(lia)); reflexivity.
+Qed.
+
 Print Assumptions dft_shift.
 Print Assumptions dft_mirror.
 Print Assumptions dft_bins_periodic.
@@ -937,3 +979,5 @@ Print Assumptions eigen_shift_any_svd.
 Print Assumptions eigen_mirror_any_svd.
 Print Assumptions pmusic_pev_shift_any_svd.
 Print Assumptions pmusic_pev_mirror_any_svd.
+Print Assumptions daniell_shift_presmoothing.
+Print Assumptions daniell_mirror_presmoothing.
